@@ -795,7 +795,6 @@ def neg_ok(prog, g):
     return True
 
 
-<<<<<<< HEAD
 def gen_wide(rng, name):
     """'wide' family: SPARSE BUT WIDE parameter spaces — 2-4 range parameters with 2-3 values each (<= ~50 instances) whose
     [min..max] extents are large (large |min| / max, large steps, negative bounds): the product of the extents is spread over
@@ -864,21 +863,16 @@ def gen_wide(rng, name):
     return prog
 
 
-def gen_programs(rng, n, mode, prefix, derived_params=True):
-    """n programs named <prefix>0.. (rejected draws are retried on the next fork of the stream)"""
-    out = []
-    k = 0
-    while len(out) < n and k < 50 * n + 50:
-        p = gen_wide(rng.fork(k), '%s%d' % (prefix, len(out))) if mode == 'wide' else gen_program(rng.fork(k), '%s%d' % (prefix, len(out)), mode, derived_params=derived_params)
-=======
 def gen_programs(rng, n, mode, prefix, derived_params=True, datasafe=False, accept=None):
     """n programs named <prefix>0.. (rejected draws are retried on the next fork of the stream).
     accept(prog) -> bool: an extra filter (e.g. the data-validity analysis of C02); it may prune prog.gvecs."""
     out = []
     k = 0
     while len(out) < n and k < 50 * n + 50:
-        p = gen_program(rng.fork(k), '%s%d' % (prefix, len(out)), mode, derived_params=derived_params, datasafe=datasafe)
->>>>>>> prop/PTGRT
+        if mode == 'wide':
+            p = gen_wide(rng.fork(k), '%s%d' % (prefix, len(out)))
+        else:
+            p = gen_program(rng.fork(k), '%s%d' % (prefix, len(out)), mode, derived_params=derived_params, datasafe=datasafe)
         k += 1
         if p is not None and (accept is None or accept(p)):
             out.append(p)
